@@ -130,7 +130,7 @@ def literal_corpus(tier, seed):
     import random
     rng = random.Random(seed + 101)
     defs = [d for d in corpus.shape_corpus() if d["id"].startswith(("meta", "icase", "kw_", "ops", "two_tok", "emoji", "bytes_raw", "single"))]
-    alphabet = list(".+*?()[]{}|^$\\-&") + ["a", "B", "k", "K", "é", "É", "ß", "ſ", "σ", "ς", "Σ", "€", "😀", " ", "\n", "\t", "\"", "'", "#", "(?", "?&", "x"]
+    alphabet = list(".+*?()[]{}|^$\\-&<>=!%,:;@_~/`") + ["a", "B", "k", "K", "é", "É", "ß", "ſ", "σ", "ς", "Σ", "€", "😀", " ", "\n", "\t", "\"", "'", "#", "(?", "?&", "x", "->", "<<"]
     n = 30 if tier == "quick" else 400
     for k in range(n):
         lits = []
@@ -155,7 +155,7 @@ def literal_corpus(tier, seed):
     for k in range(n // 2):
         lits = []
         for _ in range(rng.randint(1, 3)):
-            lits.append(bytes(rng.choice([0, 0x41, 0x61, 0x6b, 0x7f, 0x80, 0xc3, 0x89, 0xa9, 0xff, 0x2e, 0x5c, 0x28]) for _ in range(rng.randint(1, 3))))
+            lits.append(bytes(rng.choice([0, 0x41, 0x61, 0x6b, 0x7f, 0x80, 0xc3, 0x89, 0xa9, 0xff, 0x2e, 0x5c, 0x28, 0x3c, 0x3e, 0x2d, 0x23, 0x7e, 0x20, 0x5d, 0x7b]) for _ in range(rng.randint(1, 3))))
         leaves = []
         seenw = set()
         for w in lits:
@@ -168,6 +168,12 @@ def literal_corpus(tier, seed):
             leaves.append(corpus.tok(w, prio=rng.randint(1, 20), **kw))
         leaves.append(corpus.rx(b"[a-z]+", prio=1))
         defs.append(corpus.mk("blit%d_%d" % (seed, k), leaves, utf8=False, tags=["literal"]))
+    # every ASCII punctuation byte in a byte-string literal, with and without ignore(case)
+    punct = [b for b in range(0x21, 0x7f) if not chr(b).isalnum()]
+    for k in range(0, len(punct), 4):
+        grp = punct[k:k + 4]
+        defs.append(corpus.mk("bpunct%d" % k, [corpus.tok(bytes([0x61, b]), icase=True, prio=9) for b in grp] + [corpus.rx(b"[a-z]", prio=1)], utf8=False, tags=["literal"]))
+        defs.append(corpus.mk("spunct%d" % k, [corpus.tok("a" + chr(b), icase=(b % 2 == 0), prio=9) for b in grp] + [corpus.rx("[a-z]", prio=1)], tags=["literal"]))
     # regex / skip with ignore(case)
     for k, p in enumerate(["ab+c", "[a-f]x", "straße", "ǆ+", "k|σ", "\\x41b"]):
         defs.append(corpus.mk("icrx%d" % k, [corpus.rx(p, icase=True, prio=5), corpus.rx("[a-zA-Z]+", prio=1)], tags=["literal"]))
